@@ -196,6 +196,10 @@ def all_cases():
     for n in range(7):
         for x in [0.06, 0.2, 0.7, 1.0, 2.5, 5.0, 9.0, 14.0, 19.5]:
             cases.append({'kind': 'kn', 'n': n, 'x': x})
+    # every integer order: K_{-n} = K_n, and the derivative formula holds as written for negative orders too
+    for n in (-1, -2, -3, -6):
+        for x in [0.07, 0.9, 3.0, 11.0]:
+            cases.append({'kind': 'kn', 'n': n, 'x': x})
     for name, args, pos in SPECIAL:
         cases.append({'kind': 'special', 'name': name, 'args': args, 'pos': pos})
         a2 = list(args)
